@@ -116,7 +116,10 @@ void run(const Spec &s) {
             break;
         }
         case 'W':
+            // after a stop() this wait is the restart clause of C08: a task submitted to the restarted pool must be executed and destroyed
+            vs_note(stop_returns.empty() ? "" : "restarted-after-stop");
             vs_block_until(pred_destroyed, (void *)(long)submitted);
+            vs_note("");
             for (int id : pending_since_barrier) must_run[id] = true;
             break;
         case 'U': pool->update(); break;
@@ -214,7 +217,7 @@ bool provider(const std::string &prop, const std::string &tier, const std::strin
     suite.assumptions = {"sequential consistency at synchronisation-step granularity (data races are what C15 checks on the same programs)", "non-expiring workers (expiry timeout -1) unless the program name says otherwise",
                          "spurious condition-variable wake-ups are generated only in the programs marked +spurious (one per execution, costing 1 deviation)", "one owner thread; bounded scripts, task counts, worker counts and preemption bounds as listed per program"};
     if (prop == "C07") suite.relevant = [](int o, const std::string &m, const std::string &) { return o == VS_OUT_ORACLE || o == VS_OUT_CRASH || (o == VS_OUT_DEADLOCK && m.find("t0:blocked-in-harness-wait") != std::string::npos); };
-    if (prop == "C08") suite.relevant = [](int o, const std::string &m, const std::string &) { return o == VS_OUT_ORACLE || (o == VS_OUT_DEADLOCK && m.find("t0:blocked-in-harness-wait") == std::string::npos); };
+    if (prop == "C08") suite.relevant = [](int o, const std::string &m, const std::string &) { return o == VS_OUT_ORACLE || (o == VS_OUT_DEADLOCK && (m.find("t0:blocked-in-harness-wait") == std::string::npos || m.find("note=restarted-after-stop") != std::string::npos)); };
     int b = thorough ? 4 : 3;
     for (int mt : {1, 2}) {
         for (const char *sc : {"SWX", "SX", "SSWX", "SSX", "SCSWX", "SXSWX", "SSCX"}) { Spec s = base; s.script = sc; s.maxThreads = mt; add(suite, s, b, flavour); }
